@@ -66,7 +66,7 @@ class P04(SessionPlan):
             "(3 profiles x 256 CONNACK return codes x session-present x keepalive 0/7 x 3.1/3.1.1 x 2 transport models) "
             "and every ordering (depth<=3/4) of CONNACK, duplicate CONNACK, refusal, timer expiry and loss; "
             "non-trivial = the monitor judged at least one connect() outcome or one connection loss in it; distinct by (config, executed step list)")
-    n_quick = 3000
+    n_quick = 10000
 
     def exhaustive(self, tier):
         return ["profiles x CONNACK return codes 0..255 x session-present x keepalive {0,7} x protocol level {3,4} x transport model"]
@@ -291,10 +291,10 @@ class CrashPlan(SessionPlan):
     level = "fault_enumeration"
     persistent = None
     conts = CONT_CLEAN
-    n_bases_quick = 24
-    n_bases_thorough = 400
-    n_quick = 2500
-    n_thorough = 60000
+    n_bases_quick = 40
+    n_bases_thorough = 600
+    n_quick = 10000
+    n_thorough = 500000
 
     def walk_persistent(self, rng):
         if self.persistent is None:
@@ -375,7 +375,7 @@ class P14(SessionPlan):
     rule = ("exhaustive matrix 3 profiles x {fresh idle, connecting, connected, idle after refused CONNACK, lost} x 5 operations x 9 broker packet types "
             "x 2 transport models, with and without requests pending, plus the same probes at random points of seeded walks and from re-entrant "
             "callbacks; non-trivial = at least one operation or foreign packet was judged; distinct by (config, executed step list)")
-    n_quick = 4000
+    n_quick = 12000
 
     def exhaustive(self, tier):
         return ["profile x protocol state x API operation", "profile x protocol state x broker packet type"]
@@ -518,7 +518,7 @@ def hostile_blobs(tier, seed):
 class P16(SessionPlan):
     prop = "C16"
     monitor = staticmethod(hostile.c16)
-    n_quick = 2000
+    n_quick = 8000
     rule = ("inputs = all byte strings up to length 3 (quick) / 4 (thorough) over a 14-symbol alphabet, every valid broker packet with each byte replaced by "
             "{00,01,7F,80,FF,^01,^80}, truncated at every length and extended, every first byte 0..255 with all bodies up to length 2 over the alphabet, "
             "and seeded random streams; each injected into one of 14 contexts (profile x idle/connecting/connected, requests of every kind pending, keepalive on/off, "
